@@ -193,7 +193,7 @@ emit("C13", "(* Property C13 - view = marginalize > project > mask > normalize, 
  ("keep_is_remove", "ViewP", "view_keep_is_remove", "--marginalize-keep = --marginalize-remove of the complement"),
 ])
 
-IMP3 = "From Sfs Require Import Index Npy Text NpyP TextP NpySpellP.\nClose Scope string_scope. Open Scope N_scope."
+IMP3 = "From Sfs Require Import Index Npy Text NpyP TextP NpySpellP TextLayoutP.\nClose Scope string_scope. Open Scope N_scope."
 
 def emit_n(pid, header, items, extra=""):
     out = [header, IMP3, ""]
@@ -219,6 +219,8 @@ emit_n("C07", "(* Property C07 - spectrum files round-trip through text and npy;
  ("text_special_printed", "TextP", "print_fixed_special", "NaN and infinities are printed as NaN / inf / -inf"),
  ("text_special_parsed", "TextP", "parse_f64_special", "... and read back as NaN / inf / -inf"),
  ("printed_values_are_tokens", "TextP", "print_fixed_nonempty_no_ws", "printed values are non-empty ASCII tokens without whitespace"),
+ ("text_tokens_any_layout", "TextLayoutP", "split_ws_layout", "text: the value tokens are found whatever non-empty runs of ASCII whitespace (spaces, tabs, line breaks, CR LF) separate, precede or follow them"),
+ ("text_reader_layout_free", "TextLayoutP", "read_text_layout_free", "... so the reader returns for every layout what it returns for the one-line layout the writer produces"),
 ])
 
 emit_n("C15", "(* Property C15 - npy output conforms to NPY 1.0; reader of the numpy dtypes. *)", [
@@ -243,6 +245,8 @@ emit_n("C16", "(* Property C16 - damaged spectrum files are rejected, never read
  ("text_count_must_match", "TextP", "read_text_count", "text: likewise"),
  ("any_format_count_must_match", "TextP", "read_spectrum_count", "auto-detected input: likewise"),
  ("short_input_has_no_format", "TextP", "detect_short", "inputs shorter than the magic have no format (error, not a panic)"),
+ ("text_tokens_counted_wherever_they_stand", "TextLayoutP", "read_text_token_count", "text: acceptance is decided by the number of tokens in the whole remainder of the file, on whichever lines they stand"),
+ ("text_surplus_line_rejected", "TextLayoutP", "read_text_surplus_line_rejected", "... in particular a complete values line followed by one more token on a later line is rejected"),
 ])
 
 def emit_s(pid, header, items, imports, extra=""):
